@@ -8,6 +8,8 @@ import PhysisModel.Model.Layer
 import PhysisModel.Spec.Layer
 import PhysisModel.Model.Pbd
 import PhysisModel.Spec.Pbd
+import PhysisModel.Model.Sklb
+import PhysisModel.Spec.HavokTag
 namespace Physis.Driver.C16
 open Physis Physis.Proto
 
@@ -182,6 +184,133 @@ def pbdCase (its lks fromS toS : String)
       -- a start node without sibling link: undocumented, left unconstrained by the property
       pure (answer input model ["triv", "no-sibling"] (some model))
 
+/-! ### skeletons: SKLB container + Havok binary tag file -/
+
+section Skel
+open Spec.HavokTag
+
+def int? (s : String) : Option Int := s.toInt?
+
+def hex? (s : String) : Option Bytes := Bytes.ofHexFast s
+
+/-- `head/x/y/..` → the items after the head (`head` alone = no items) -/
+def slashItems (s : String) : List String := (s.splitOn "/").drop 1
+
+/-- one value from a token stream (prefix notation, see `harness/src/c16.rs`):
+`_` absent, `b<u8>`, `i<int>`, `r<u32>`, `s<hex>`, `o<index>`, `B<hex>`, `I<kind>/<int>/..`,
+`R/<u32>/..`, `S/<hex>/..`, `O/<index>/..`, `V/<u32>.<u32>. ../..`, `X<n>x<k>` followed by `k` column values -/
+def parseVal : Nat → List String → Option (Val × List String)
+  | 0, _ => none
+  | _, [] => none
+  | fuel + 1, tok :: rest =>
+    let body := (tok.drop 1).toString
+    match tok.front with
+    | '_' => if tok == "_" then some (.absent, rest) else none
+    | 'b' => do let n ← body.toNat?; if n < 256 then some (.byte n.toUInt8, rest) else none
+    | 'i' => do some (.int (← int? body), rest)
+    | 'r' => do some (.real (← u32? body), rest)
+    | 's' => do some (.str (← hex? body), rest)
+    | 'o' => do some (.ref (← body.toNat?), rest)
+    | 'B' => do some (.bytes (← hex? body), rest)
+    | 'I' => do
+      let kind ← int? ((body.splitOn "/").headD "")
+      some (.ints kind (← (slashItems body).mapM int?), rest)
+    | 'R' => do some (.reals (← (slashItems tok).mapM u32?), rest)
+    | 'S' => do some (.strs (← (slashItems tok).mapM hex?), rest)
+    | 'O' => do some (.refs (← (slashItems tok).mapM (·.toNat?)), rest)
+    | 'V' => do some (.vecs (← (slashItems tok).mapM fun v => (v.splitOn ".").mapM u32?), rest)
+    | 'X' =>
+      match body.splitOn "x" with
+      | [n, k] => do
+        let n ← n.toNat?
+        let k ← k.toNat?
+        let rec cols : Nat → List String → Option (List Val × List String)
+          | 0, ts => some ([], ts)
+          | j + 1, ts => do
+            let (v, ts) ← parseVal fuel ts
+            let (vs, ts) ← cols j ts
+            some (v :: vs, ts)
+        let (cs, rest) ← cols k rest
+        some (.structs n cs, rest)
+      | _ => none
+    | _ => none
+
+def parseVals (fuel : Nat) : Nat → List String → Option (List Val)
+  | 0, _ => none
+  | _, [] => some []
+  | k + 1, ts => do
+    let (v, ts) ← parseVal fuel ts
+    let vs ← parseVals fuel k ts
+    some (v :: vs)
+
+def memberDecl? (s : String) : Option MemberDecl :=
+  match s.splitOn "/" with
+  | [n, ty, tuple, cls] => do some ⟨← hex? n, ← ty.toNat?, ← int? tuple, ← hex? cls⟩
+  | _ => none
+
+def tagItem? (s : String) : Option Item :=
+  match s.splitOn ":" with
+  | ["T", name, version, parent, members] => do
+    some (.type ⟨← hex? name, ← int? version, ← parent.toNat?, ← (items "," members).mapM memberDecl?⟩)
+  | ["O", ty, fields] => do
+    let toks := items "," fields
+    some (.obj (← ty.toNat?) (← parseVals (toks.length + 1) (toks.length + 1) toks))
+  | _ => none
+
+def header? (ver hdr gap : String) : Option Spec.Sklb.Header := do
+  match ← u32List? hdr with
+  | [a, b, c, d, e, f] =>
+    let h : Spec.Sklb.Header := ⟨← u32? ver, a, b, c, d, e, f, ← hex? gap⟩
+    if decide h.WF then some h else none
+  | _ => none
+
+def showTriple (v : UInt32 × UInt32 × UInt32) : String := s!"{v.1.toNat},{v.2.1.toNat},{v.2.2.toNat}"
+def showQuad (v : UInt32 × UInt32 × UInt32 × UInt32) : String :=
+  s!"{v.1.toNat},{v.2.1.toNat},{v.2.2.1.toNat},{v.2.2.2.toNat}"
+
+def showSkelS (l : List Bone) : String :=
+  join ";" (l.map fun b => s!"{Bytes.toHex b.name}:{b.parent}:{showTriple b.position}:{showQuad b.rotation}:{showTriple b.scale}")
+def showSkelM (l : List Havok.Bone) : String :=
+  join ";" (l.map fun b => s!"{Bytes.toHex b.name}:{b.parent}:{showTriple b.position}:{showQuad b.rotation}:{showTriple b.scale}")
+
+def skelAnswer (h : Spec.Sklb.Header) (p : Enc) (f : TagFile) : Option String := do
+  if !wf f then none
+  let bones ← bonesOf f
+  let file := Spec.Sklb.encode h (encode p f)
+  let tags := (if usesUnimplemented [] f then ["kf:havok-unimplemented-member-kind"] else []) ++
+    (if guardTrips p f then ["kf:havok-array-length-guard"] else []) ++
+    (if usesWideInt f then ["kf:havok-int-beyond-i32"] else [])
+  pure (answer ("skel " ++ Bytes.toHex file) ("some " ++ showSkelS bones) tags
+    (some (showOutcome showSkelM (Sklb.fromExisting file))))
+
+/-- an arbitrary tag file (types and objects in file order) -/
+def skelCase (ver hdr gap reuse width its : String) : Option String := do
+  let h ← header? ver hdr gap
+  let p : Enc := ⟨← reuse.toNat?, ← width.toNat?⟩
+  let f ← (items ";" its).mapM tagItem?
+  skelAnswer h p f
+
+def boneRec? (s : String) : Option BoneRec :=
+  match s.splitOn ":" with
+  | [name, parent, pose, lock] => do
+    match ← u32List? pose with
+    | [t0, t1, t2, t3, r0, r1, r2, r3, s0, s1, s2, s3] =>
+      let l ← lock.toNat?
+      if l < 256 then
+        some ⟨⟨← hex? name, ← int? parent, (t0, t1, t2), (r0, r1, r2, r3), (s0, s1, s2)⟩, t3, s3, l.toUInt8⟩
+      else none
+    | _ => none
+  | _ => none
+
+/-- the standard file `Spec.HavokTag.stdFile` of `c16_skeleton` -/
+def skelStdCase (ver hdr gap reuse width name vname kind bones : String) : Option String := do
+  let h ← header? ver hdr gap
+  let p : Enc := ⟨← reuse.toNat?, ← width.toNat?⟩
+  let s : Skel := ⟨← hex? name, ← hex? vname, ← int? kind, ← (items ";" bones).mapM boneRec?⟩
+  skelAnswer h p (stdFile s)
+
+end Skel
+
 /-- one case line in, one answer line out (see `Base/Proto.lean`) -/
 def handle (line : String) : String :=
   let r : Option String :=
@@ -194,6 +323,9 @@ def handle (line : String) : String :=
     | ["pbdl", its, lks, a, b, stored, reserved, trailer] =>
       pbdCase its lks a b (C16Pbd.placedEncoder stored reserved trailer)
     | ["pbd", its, lks, a, b] => pbdCase its lks a b
+    | ["skel", ver, hdr, gap, reuse, width, its] => skelCase ver hdr gap reuse width its
+    | ["skelstd", ver, hdr, gap, reuse, width, name, vname, kind, bones] =>
+      skelStdCase ver hdr gap reuse width name vname kind bones
     | [op, a, b, c, name] => layerCase op a b c name
     | _ => none
   r.getD bad
